@@ -73,3 +73,11 @@ Definition shift_case (sigma tol : Q) (ref obs : list Q) : bool :=
   vclose tol (map (reported_eigenvalue sigma sigma) ref) obs.
 
 Definition slq_order_case (requested op_size observed : nat) : bool := Nat.eqb (clamp_order requested op_size) observed.
+
+(* observed: Some k = k eigenvalues were computed, None = the call raised ValueError *)
+Definition neig_case (compute_all verbose : bool) (n n_rel : nat) (obs : option nat) : bool :=
+  match effective_n compute_all verbose n n_rel, obs with
+  | Some a, Some b => Nat.eqb a b
+  | None, None => true
+  | _, _ => false
+  end.
